@@ -113,6 +113,27 @@ def run(ctx: Ctx) -> None:
     # ------------------------------------------------------------ R-C33.2
     pkgs = ("guppylang_internals",)
     n_sites = 0
+    # A helper that calls the gate on every path to a normal return IS a gate for its callers (`gated_function_tensor_signature`
+    # checks the flag and then computes the signature): wrappers are collected to a fixpoint, per gate function.
+    all_funcs = list(idx.iter_funcs(pkgs))
+    _cfgs: dict = {}
+
+    def gate_set(gate: str) -> set[str]:
+        names = {gate}
+        changed = True
+        while changed:
+            changed = False
+            for wf in all_funcs:
+                if wf.node.name in names or wf.node.name.startswith(("visit_", "__")):
+                    continue
+                if not any(call_name(c) in names for c in calls_in(wf.node)):
+                    continue
+                g_ = _cfgs.get(wf.qualname) or _cfgs.setdefault(wf.qualname, CFG(wf.node))
+                if g_.every_path_to_exit_passes(calls_any(names)):
+                    names.add(wf.node.name)
+                    changed = True
+        return names
+    GATES = {g_: gate_set(g_) for g_ in sorted(gate_names)}
     for f in idx.iter_funcs(pkgs):
         sites = [c for c in calls_in(f.node) if call_name(c) in CONSTRUCTOR_GATES and isinstance(c.func, (ast.Name, ast.Attribute))]
         if not sites:
@@ -124,9 +145,9 @@ def run(ctx: Ctx) -> None:
             n_sites += 1
             ctx.saw("call sites", f"{f.qualname}:{cname}")
             nodes = g.nodes_for(c)
-            ok = bool(nodes) and all(g.dominated_by(n, calls_any({gate})) for n in nodes)
+            ok = bool(nodes) and all(g.dominated_by(n, calls_any(GATES.get(gate, {gate}))) for n in nodes)
             ctx.check(ok, "R-C33.2", f"{f.qualname}#{cname}-behind-{gate}", f"{f.module.rel}:{c.lineno}",
-                      {"constructor": cname, "gate": gate, "cfg_nodes": len(nodes)},
+                      {"constructor": cname, "gate": gate, "gate_or_wrappers": sorted(GATES.get(gate, {gate})), "cfg_nodes": len(nodes)},
                       f"a `{cname}` can be produced on a path that never called `{gate}`: the experimental construct is accepted while disabled")
     ctx.floor("R-C33.2", "constructor sites of gated constructs", n_sites, 4)
 
@@ -136,7 +157,7 @@ def run(ctx: Ctx) -> None:
         f = idx.method(cls, meth)
         ctx.saw("functions", f.qualname)
         g = CFG(f.node)
-        ok = g.every_path_to_exit_passes(calls_any({"check_lists_enabled"}))
+        ok = g.every_path_to_exit_passes(calls_any(GATES.get("check_lists_enabled", {"check_lists_enabled"})))
         # and the gate comes first: no other call before it on any path (a rejection for another reason is fine,
         # but an *acceptance path* must pass the gate, which is what is checked)
         ctx.check(ok, "R-C33.2", f"{f.qualname}#all-paths-call-check_lists_enabled", f.where, {"all_normal_paths": ok},
@@ -146,7 +167,7 @@ def run(ctx: Ctx) -> None:
     # CFGBuilder.visit_With: gate first
     vw = idx.method("CFGBuilder", "visit_With")
     g = CFG(vw.node)
-    ctx.check(g.every_path_to_exit_passes(calls_any({"check_modifiers_enabled"})), "R-C33.2",
+    ctx.check(g.every_path_to_exit_passes(calls_any(GATES.get("check_modifiers_enabled", {"check_modifiers_enabled"}))), "R-C33.2",
               f"{vw.qualname}#all-paths-call-check_modifiers_enabled", vw.where, {},
               "a `with` modifier block can be accepted on a path that never called check_modifiers_enabled")
 
